@@ -10,6 +10,7 @@ import (
 	"github.com/aperturerobotics/bifrost/link"
 	"github.com/aperturerobotics/bifrost/peer"
 	"github.com/aperturerobotics/bifrost/transport"
+	"github.com/pkg/errors"
 	"github.com/quic-go/quic-go"
 	"github.com/sirupsen/logrus"
 )
@@ -163,6 +164,19 @@ func (t *Transport) DialPeer(ctx context.Context, peerID peer.ID, as string) (li
 	lnk, err := dl.result.Await(ctx)
 	if err != nil {
 		return nil, false, err
+	}
+
+	// the dialers do not constrain the remote identity: if a different peer
+	// answered at that address this is not a link to the requested peer.
+	if len(peerID) != 0 {
+		if remotePeer := lnk.GetRemotePeer(); remotePeer != peerID {
+			return nil, false, errors.Errorf(
+				"dialed %s but remote peer is %s, expected %s",
+				as,
+				remotePeer.String(),
+				peerID.String(),
+			)
+		}
 	}
 
 	return lnk, false, err
